@@ -98,6 +98,9 @@ class Ctx:
             e["JAVA_TOOL_OPTIONS"] = " ".join(jopts)
         if env:
             e.update(env)
+        if "-Xss" not in e.get("JAVA_TOOL_OPTIONS", ""):
+            # deep recursive operators (sequence folds over long traces) overflow the default 1 MB thread stacks now and then
+            e["JAVA_TOOL_OPTIONS"] = (e.get("JAVA_TOOL_OPTIONS", "") + " -Xss256m").strip()
         cmd = ["timeout", str(timeout), "tlc", "-workers", str(workers), "-metadir", md, "-config", cfg] + (extra or []) + [module + ".tla"]
         t0 = time.time()
         p = subprocess.run(cmd, cwd=d, env=e, capture_output=True, text=True)
